@@ -110,6 +110,28 @@ def law_checks(rep, sh, R, M, g, i, where, maxdev, counts):
     return True
 
 
+COMPOSITES = ("s;p", "p;d", "pz;s")
+
+
+def parts_of(sym):
+    return [x.strip() for x in sym.split(";")]
+
+
+def expected_any(g, sym, i):
+    """the specification's matrix of a shell, a hybrid with an s/p/d oracle, or a composite 'a;b' (block diagonal of its
+    parts) for element i; None if some part has no oracle (f)"""
+    from scipy.linalg import block_diag
+    mats = []
+    for sh in parts_of(sym):
+        e = sc.expected_exact(g, sh, i)
+        if e is None:
+            e = sc.expected_hybrid(g, sh, i)
+        if e is None:
+            return None
+        mats.append(e)
+    return block_diag(*mats)
+
+
 def replay_group(rep, g, shells, thorough, rng):
     """spec -> code for one generated group"""
     from scipy.linalg import block_diag
@@ -169,38 +191,64 @@ def replay_group(rep, g, shells, thorough, rng):
                                                                             h=g["elems"][j].tolist(), gh=g["elems"][k].tolist(),
                                                                             index_triple=[i, j, k], deviation=dv))
     # combined shells are block diagonal
-    comb = "s;p;d"
-    if all(sh in shells for sh in ("s", "p", "d")):
-        for i in rng.sample(range(n), min(n, 6)):
+    composites = [c for c in ("s;p;d",) + COMPOSITES if all(x in shells for x in parts_of(c))]
+    for comb in composites:
+        allowed = [i for i in range(n) if all(i in D[x] for x in parts_of(comb))]
+        for i in rng.sample(allowed, min(len(allowed), 4)):
             M = call_rot(rep, rot, comb, g["elems"][i])
             if M is None:
                 continue
-            exp = block_diag(*[sc.expected_exact(g, sh, i) for sh in ("s", "p", "d")])
-            rep.case(("comb", g["name"], i))
+            exp = expected_any(g, comb, i)
+            rep.case(("comb", g["name"], comb, i))
+            counts["composite"] = counts.get("composite", 0) + 1
             if M.shape != exp.shape or np.abs(M - exp).max() > TOL_EXACT:
                 rep.violation("OrbitalRotator:combined", dict(orb=comb, rot_cart=g["elems"][i].tolist(), expected=exp.tolist(), got=M.tolist()))
     # local bases: rotator(sh, R, basis1, basis2) = D(basis2 R basis1^T), index through the specification's table
-    nb = 400 if thorough else 60
-    for _ in range(nb):
-        sh = rng.choice(shells)
+    #   single shells, hybrids and composites 'a;b' (block diagonal of the parts IN the frames); every third case uses a common
+    #   frame b1 = b2 (D_b(R) = D(b R b^T)) and also tests D_b(R) D_b(R') = D_b(R R')
+    nb = 400 if thorough else 90
+    counts["basis_composite"] = counts["basis_common_frame"] = 0
+    for case in range(nb):
+        sh = rng.choice(shells + composites + composites)
         b1, r, b2 = rng.randrange(n), rng.randrange(n), rng.randrange(n)
+        if case % 3 == 0:
+            b2 = b1
         k = g["table"][b2][g["table"][r][g["inv"][b1]]]
-        if k not in D[sh]:
+        if not all(k in D[x] for x in parts_of(sh)):
             continue
         M = call_rot(rep, rot, sh, g["elems"][r], basis1=g["elems"][b1], basis2=g["elems"][b2])
         if M is None:
             continue
+        exp = block_diag(*[D[x][k] for x in parts_of(sh)])
         rep.case(("basis", g["name"], sh, b1, r, b2))
         counts["basis"] += 1
-        dv = float(np.abs(M - D[sh][k]).max()) if M.shape == D[sh][k].shape else float("inf")
+        counts["basis_composite"] += int(";" in sh)
+        dv = float(np.abs(M - exp).max()) if M.shape == exp.shape else float("inf")
         if dv > TOL:
             rep.violation(f"OrbitalRotator:local_basis:{sh}", dict(group=g["name"], shell=sh, rot_cart=g["elems"][r].tolist(),
                                                                    basis1=g["elems"][b1].tolist(), basis2=g["elems"][b2].tolist(),
-                                                                   expected_element=k, deviation=dv))
+                                                                   expected_element=k, deviation=dv,
+                                                                   what="rotator(shell, R, basis1, basis2) differs from D(basis2 R basis1^T) (composites: from the block "
+                                                                        "matrix of their parts in these frames)"))
+            continue
+        if b1 == b2:
+            r2 = rng.randrange(n)
+            M2 = call_rot(rep, rot, sh, g["elems"][r2], basis1=g["elems"][b1], basis2=g["elems"][b1])
+            M12 = call_rot(rep, rot, sh, g["elems"][g["table"][r][r2]], basis1=g["elems"][b1], basis2=g["elems"][b1])
+            if M2 is None or M12 is None or M2.shape != M.shape or M12.shape != M.shape:
+                continue
+            k2 = g["table"][b1][g["table"][r2][g["inv"][b1]]]
+            if not all(k2 in D[x] for x in parts_of(sh)):
+                continue
+            counts["basis_common_frame"] += 1
+            dv = float(np.abs(M @ M2 - M12).max())
+            if dv > TOL:
+                rep.violation(f"OrbitalRotator:local_basis:homomorphism:{sh}", dict(group=g["name"], shell=sh, frame=g["elems"][b1].tolist(),
+                                                                                    g=g["elems"][r].tolist(), h=g["elems"][r2].tolist(), deviation=dv))
     if counts["notpres"] == 0 and g["name"] in ("Oh", "D6h"):
         raise MachineryError(f"no element of {g['name']} outside a stabiliser: the domain predicate was never exercised")
-    if counts["basis"] == 0 and not rep.violations:
-        raise MachineryError("no local-basis case")
+    if (counts["basis"] == 0 or counts["basis_composite"] == 0 or counts["basis_common_frame"] == 0) and not rep.violations:
+        raise MachineryError(f"local-basis cases incomplete: {counts}")
     rep.part(f"replay_{g['name']}", counts=counts, max_deviation=maxdev)
     return D
 
@@ -211,19 +259,37 @@ def records(rep, groups, shells, nmat, nhom, rng):
     pool = [(g, i) for g in groups for i in range(g["n"])]
     subs = [sh for sh in sc.SPEC_SUB if sh in shells]
 
-    def fmat(R):
+    def fmat(R, b1=None, b2=None):
+        """the record carries the rotation the matrices must represent: R, or b2 R b1^T when the code was called with local
+        frames; with frames the s, p, d matrices are the diagonal blocks of ONE composite call 's;p;d'"""
         rot = new_rotator()
-        out = dict(fn="mat", R=sc.rat_mat(R), sub=[])
+        kw = {} if b1 is None else dict(basis1=b1, basis2=b2)
+        Reff = R if b1 is None else b2 @ R @ b1.T
+        out = dict(fn="mat", R=sc.rat_mat(Reff), sub=[], framed=b1 is not None)
+        blocks = {}
+        if b1 is not None:
+            M = call_rot(rep, rot, "s;p;d", R, **kw)
+            if M is None or M.shape != (9, 9):
+                return None
+            blocks = {"s": M[:1, :1], "p": M[1:4, 1:4], "d": M[4:, 4:]}
+            off = M.copy()
+            off[:1, :1] = 0
+            off[1:4, 1:4] = 0
+            off[4:, 4:] = 0
+            if np.abs(off).max() > 1e-12:
+                rep.violation("OrbitalRotator:combined", dict(orb="s;p;d", rot_cart=R.tolist(), basis1=b1.tolist(), basis2=b2.tolist(),
+                                                              what="a composite symbol is not block diagonal"))
+                return None
         for sh in ("s", "p", "d"):
-            M = call_rot(rep, rot, sh, R)
+            M = blocks[sh] if blocks else call_rot(rep, rot, sh, R)
             Ms = None if M is None else sc.to_spec_order(sh, M)
             if Ms is None:
                 return None
             out[sh] = sc.rat_mat(Ms)
         for sh in subs:
-            if not sc.span_preserved(sh, R):
+            if not sc.span_preserved(sh, Reff):
                 continue
-            M = call_rot(rep, rot, sh, R)
+            M = call_rot(rep, rot, sh, R, **kw)
             Ms = None if M is None else sc.to_spec_order(sh, M)
             if Ms is not None:
                 out["sub"].append([sh, sc.rat_mat(Ms)])
@@ -231,7 +297,12 @@ def records(rep, groups, shells, nmat, nhom, rng):
     for _ in range(nmat):
         (g1, i), (g2, j) = rng.choice(pool), rng.choice(pool)
         R = g1["elems"][i] @ g2["elems"][j] if rng.random() < 0.6 else g1["elems"][i]
-        r = fmat(R)
+        if _ % 2 == 1:      # with local frames from the groups (a common frame every other time)
+            (g3, a), (g4, b) = rng.choice(pool), rng.choice(pool)
+            b1 = g3["elems"][a]
+            r = fmat(g1["elems"][i], b1, b1 if _ % 4 == 1 else g4["elems"][b])
+        else:
+            r = fmat(R)
         if r is not None:
             recs.append(r)
             rep.case(("rec_mat", g1["name"], i, g2["name"], j))
@@ -302,20 +373,49 @@ def dwann_replay(rep, structs, oh, shells, thorough, rng):
             # shells whose span every operation of the group preserves (basis not rotated)
             ok = [sh for sh in shells if all(ohindex[W] in oh["pres"][sh] for W, _, _ in st["ops"])]
             counts["skipped_shell"] += len(shells) - len(ok)
-            for sh in (ok if thorough else rng.sample(ok, min(3, len(ok)))):
-                detail = dict(structure=st["key"], shell=sh, spinor=spinor)
+            # local frames (rows = local axes) taken from the specification's group: a common non-identity frame on all sites, or
+            # a different frame on every site; orbitals incl. composites 'a;b'.  A case is admitted if b_map(a) g b_a^T preserves
+            # the span of every part for every operation g and site a (then the block is D_spec of that element).
+            def frame_element(n, a, frames):
+                W = np.array(st["ops"][n][0], dtype=float)
+                b = loc[st["amap"][n][glob[a]]]
+                M = frames[b] @ W @ frames[a].T
+                return ohindex[tuple(tuple(int(round(x)) for x in r) for r in M)]
+
+            def admitted(orbital, frames):
+                return all(frame_element(n, a, frames) in oh["pres"][x] for n in range(len(st["ops"])) for a in range(len(glob)) for x in parts_of(orbital))
+            ident = [np.eye(3)] * len(glob)
+            cases = [(sh, ident, "identity") for sh in (ok if thorough else rng.sample(ok, min(3, len(ok))))]
+            candidates = [x for x in ("p", "s;p", "pz;s", "d", "p;d", "pz", "sp2", "t2g", "sp3") if all(y in shells for y in parts_of(x))]
+            nonid = [i for i in range(oh["n"]) if not np.array_equal(oh["elems"][i], np.eye(3))]
+            for label in ("common", "site", "composite"):
+                for _ in range(40):
+                    if label == "common":
+                        frames = [oh["elems"][rng.choice(nonid)]] * len(glob)
+                    else:
+                        frames = [oh["elems"][rng.choice(nonid)] for _ in glob]
+                    orbital = rng.choice([c for c in candidates if (";" in c) == (label == "composite")])
+                    # the frame must matter: some operation is represented by another group element than without frames
+                    if admitted(orbital, frames) and any(frame_element(n, a, frames) != frame_element(n, a, ident) for n in range(len(st["ops"])) for a in range(len(glob))):
+                        cases.append((orbital, frames, label))
+                        break
+            for sh, frames, label in cases:
+                detail = dict(structure=st["key"], shell=sh, spinor=spinor, frames=label, basis_list=[np.asarray(f).tolist() for f in frames])
                 with quiet():
                     good, dw = sc.guarded(rep, "Dwann", detail, Dwann, spacegroup=sg, positions=positions[glob], orbital=sh, orbitalrotator=rot,
-                                          basis_list=[np.eye(3)] * len(glob), spinor=spinor)
+                                          basis_list=list(frames), spinor=spinor)
                 if not good:
                     continue
-                key = (st["key"], ty, sh, spinor)
+                counts["frames_" + label] = counts.get("frames_" + label, 0) + 1
+                key = (st["key"], ty, sh, spinor, label, tuple(np.asarray(f).astype(int).tobytes() for f in frames))
                 order = _orbit_order(rep, dw, positions[glob])
                 if order is None:
                     rep.violation("Dwann:orbit", dict(structure=st["key"], what="the orbit of the given positions is not the set of given positions",
                                                       expected=len(glob)))
                     continue
                 npnt = len(glob)
+                if label != "identity" and order != list(range(npnt)):
+                    continue        # the frames were handed over in the order of the given positions
                 norb = num_orbitals(sh) * (2 if spinor else 1)
                 kpt = np.array([rng.randint(1, 7) / 16, rng.randint(1, 7) / 24, rng.randint(1, 7) / 20])
                 okT, Tcode = sc.private(rep, "Dwann.T", lambda: np.asarray(dw.T))
@@ -355,11 +455,10 @@ def dwann_replay(rep, structs, oh, shells, thorough, rng):
                         shift_eq[1] &= bool(np.array_equal(Tcode[:, isym, :], exp_T))
                         shift_eq[-1] &= bool(np.array_equal(Tcode[:, isym, :], -exp_T))
                     if not spinor:
-                        e = sc.expected_exact(oh, sh, ohindex[st["ops"][n][0]])
-                        if e is None:
-                            e = sc.expected_hybrid(oh, sh, ohindex[st["ops"][n][0]])
-                        if e is not None and e.shape == (norb, norb):
-                            for a in range(npnt):
+                        for a in range(npnt):
+                            # a, b are positions in the code's orbit; frames are listed in the order of the given positions
+                            e = expected_any(oh, sh, frame_element(n, order[a], frames))
+                            if e is not None and e.shape == (norb, norb):
                                 b = exp_map[a]
                                 blk = Dk[b * norb:(b + 1) * norb, a * norb:(a + 1) * norb]
                                 ph = np.exp(2j * np.pi * np.dot(k2, exp_T[a]))
@@ -376,8 +475,8 @@ def dwann_replay(rep, structs, oh, shells, thorough, rng):
                 if conv == 0:
                     rep.violation(f"Dwann:block:{sh}", dict(structure=st["key"], shell=sh, k=kpt.tolist(), deviation_plus=dev_ph[1], deviation_minus=dev_ph[-1],
                                                             what="blocks are not exp(+-2 pi i k'.T) times the specification's orbital matrix"))
-    if (counts["dwann"] == 0 or counts["maps"] == 0) and not rep.violations:
-        raise MachineryError("no Dwann case")
+    if (counts["dwann"] == 0 or counts["maps"] == 0 or any(counts.get("frames_" + x, 0) == 0 for x in ("common", "site", "composite"))) and not rep.violations:
+        raise MachineryError(f"Dwann cases incomplete (identity / common / site-dependent frames, composite orbitals): {counts}")
     rep.part("dwann_replay", counts={k: (v if not isinstance(v, dict) else {str(a): b for a, b in v.items()}) for k, v in counts.items()},
              max_unitarity_deviation=maxdev)
 
@@ -561,10 +660,34 @@ def random_rotations(rep, shells, npairs, nf, rng):
                     continue
                 ncase += 1
                 rep.case(("random", sh, n, axis))
+                if axis is None:        # a generic common frame b: D_b(R) = D(b R b^T), and the composition law in that frame
+                    b = rnd()
+                    Fs = [call_rot(rep, new_rotator(), sh, X, basis1=b, basis2=b) for X in mats]
+                    if all(F is not None for F in Fs):
+                        counts["generic_frame"] = counts.get("generic_frame", 0) + 1
+                        for X, F in zip(mats, Fs):
+                            law_checks(rep, sh, b @ X @ b.T, F, sc.np_rep(b @ X @ b.T), 0, "random, generic frame", maxdev, counts)
+                        dvf = float(np.abs(Fs[0] @ Fs[1] - Fs[2]).max())
+                        if dvf > TOL:
+                            rep.violation(f"OrbitalRotator:local_basis:homomorphism:{sh}", dict(shell=sh, frame=b.tolist(), A=A.tolist(), B=B.tolist(), deviation=dvf))
                 dv = float(np.abs(Ds[0] @ Ds[1] - Ds[2]).max())
                 maxdev["hom"] = max(maxdev.get("hom", 0.0), dv)
                 if dv > TOL:
                     rep.violation(f"OrbitalRotator:homomorphism:{sh}:random", dict(shell=sh, A=A.tolist(), B=B.tolist(), deviation=dv))
+    from scipy.linalg import block_diag
+    for comb in [c for c in ("s;p", "p;d", "s;p;d") if all(x in shells for x in parts_of(c))]:
+        A, b1, b2 = rnd(), rnd(), rnd()
+        for kw in ({}, dict(basis1=b1, basis2=b1), dict(basis1=b1, basis2=b2)):
+            M = call_rot(rep, new_rotator(), comb, A, **kw)
+            X = A if not kw else kw["basis2"] @ A @ kw["basis1"].T
+            exp = block_diag(*[sc.expected_exact(sc.np_rep(X), x, 0) for x in parts_of(comb)])
+            if M is None:
+                continue
+            counts["composite"] = counts.get("composite", 0) + 1
+            rep.case(("random_composite", comb, len(kw)))
+            if M.shape != exp.shape or np.abs(M - exp).max() > TOL:
+                rep.violation("OrbitalRotator:combined", dict(orb=comb, rot_cart=A.tolist(), frames={k: v.tolist() for k, v in kw.items()},
+                                                              what="a composite symbol differs from the block matrix of its parts (in the given local frames)"))
     rep.part("numeric_only", what="random O(3) rotations (full shells, sp3) and random rotations about / mirrors through the "
                                   "preserved axis for pz, pxy, sp2 (z) and sp, p2 (x): orthogonality, D(A)D(B) = D(AB), value against the "
                                   "harness's floating-point s/p/d formula (hybrids through hybrids_coef), character of f",
@@ -663,6 +786,10 @@ def _check(rep, tier):
     if not stt.get("violation") or stt["violation"][1] not in ("RepHomP", "RepHomD", "SubHom"):
         raise MachineryError(f"sensitivity self-test failed: D = R^T (anti-homomorphism) must violate the homomorphism invariant, got {stt.get('violation')}")
     sens = dict(transposed=stt["violation"][1])
+    stn = tlc.run_tlc("MC_OrbRep.tla", sc.orbrep_cfg("D3d", "noframe"), sc.uniq("c21_noframe"), workers=workers, timeout=1500)
+    if not stn.get("violation") or stn["violation"][1] != "RepFrame":
+        raise MachineryError(f"sensitivity self-test failed: ignoring the local frame must violate RepFrame, got {stn.get('violation')} {stn.get('error')}")
+    sens["frame_ignored"] = stn["violation"][1]
     if thorough:
         stx = tlc.run_tlc("MC_OrbRep.tla", sc.orbrep_cfg("D4h", "xyz"), sc.uniq("c21_xyz"), workers=workers, timeout=1500)
         if not stx.get("violation"):
